@@ -1058,3 +1058,343 @@ Proof.
   intros Hok Hrun. rewrite (lookup_dc_restrict h s k tok dc Hok Hrun), (lookup_refines h s k tok Hok Hrun).
   unfold spec_lookup, spec_lookup_dc. now destruct (spec_entry h k tok).
 Qed.
+
+(* ------------------------------------------------------------------------------------ *)
+(* I. flags, cleanliness after maintenance, table presence                               *)
+(* ------------------------------------------------------------------------------------ *)
+
+(* has_unknown_replicas is never falsely false *)
+Lemma run_flags h s :
+  Forall op_i64 h -> run h = Some s ->
+  (forall k tt t, find_table s k = Some tt -> tt_flag tt = false -> In t (tt_list tt) -> t_failed t = None) /\
+  (i_flag s = false -> forall k tt, find_table s k = Some tt -> tt_flag tt = false).
+Proof.
+  intros Hok Hrun. pose proof (run_state_inv h s Hok Hrun) as Hinv. split.
+  - intros k tt t E Hf Hin. destruct (state_inv_find s k tt Hinv E) as (_ & Hfl & _). now apply Hfl.
+  - intros Hf k tt E. apply afind_In in E. exact (proj2 Hinv Hf _ E).
+Qed.
+
+(* after a maintenance call no answering tablet has unknown replicas, a replica on a removed
+   node, or a stale object of a recreated node; its table is a tablet table of the schema *)
+Lemma maint_clean h kss removed current recreated s k tok t :
+  Forall op_i64 h -> run (h ++ [Maintain kss removed current recreated]) = Some s ->
+  lookup_tablet s k tok = Some t ->
+  keep_table kss k = true /\ t_failed t = None /\
+  (forall r, In r (r_all (t_reps t)) -> memN (host (fst r)) removed = false) /\
+  (forall r n', In r (r_all (t_reps t)) -> find_node recreated (host (fst r)) = Some n' -> fst r = n').
+Proof.
+  intros Hok Hrun E. unfold run in Hrun. rewrite run_from_app in Hrun.
+  destruct (run_total h Hok) as (s0 & E0 & Hinv0). unfold run in E0. rewrite E0 in Hrun.
+  cbn in Hrun. injection Hrun as <-.
+  rewrite lookup_or_empty, info_maintenance_lists in E by assumption.
+  destruct (keep_table kss k); [|discriminate E]. split; [reflexivity|].
+  destruct (or_empty_ok s0 k Hinv0) as (Hli0 & _).
+  rewrite tablet_for_token_find in E by (apply list_inv_filter_map; [apply maint_tablet_range|assumption]).
+  apply find_some in E as [Hin _]. apply filter_map_In in Hin as (x & _ & Ex).
+  unfold maint_tablet in Ex. destruct (re_resolve current x) as [t1|] eqn:E1; [|discriminate].
+  destruct (no_removed_replica removed t1) eqn:Erm; [|discriminate]. injection Ex as <-.
+  destruct (re_resolve_props _ _ _ E1) as (_ & _ & Hf1 & _).
+  destruct (update_stale_props recreated t1) as (_ & _ & Hf & Hall & _).
+  split; [congruence|]. rewrite Hall. unfold no_removed_replica in Erm. rewrite forallb_forall in Erm.
+  split.
+  - intros r Hr. apply in_map_iff in Hr as (r0 & <- & Hr0). specialize (Erm r0 Hr0).
+    assert (host (fst (spec_swap recreated r0)) = host (fst r0)) as ->; [|now destruct (memN _ removed)].
+    unfold spec_swap. destruct (find _ recreated) as [n'|] eqn:F; [|reflexivity].
+    apply find_some in F as [_ F]. cbn. now apply N.eqb_eq in F.
+  - intros r n' Hr Hn. apply in_map_iff in Hr as (r0 & <- & Hr0). unfold spec_swap in *. unfold find_node in Hn.
+    destruct (find (fun n => (host n =? host (fst r0))%N) recreated) as [n0|] eqn:F.
+    + cbn [fst] in *. pose proof F as F'. apply find_some in F' as [_ F']. apply N.eqb_eq in F'.
+      rewrite F' in Hn. congruence.
+    + congruence.
+Qed.
+
+Definition is_some {A} (o : option A) : bool := match o with Some _ => true | None => false end.
+
+Definition op_maps_ok (o : op) : Prop :=
+  match o with Maintain kss _ _ _ => NoDup (map ks_name kss) | Learn _ _ _ _ _ => True end.
+
+Lemma schema_tables_cons d kss :
+  schema_tables (d :: kss) =
+  (if ks_tablet_based d then map (fun t => (ks_name d, t)) (ks_tables d ++ ks_views d) else []) ++ schema_tables kss.
+Proof. reflexivity. Qed.
+
+Lemma schema_tables_absent kss k :
+  (forall d, In d kss -> ks_name d <> fst k) -> existsb (fun k' => tkey_eqb k' k) (schema_tables kss) = false.
+Proof.
+  induction kss as [|d kss IH]; intros H; [reflexivity|].
+  rewrite schema_tables_cons, existsb_app.
+  apply orb_false_iff. split; [|apply IH; intros d' Hd'; apply H; now right].
+  destruct (ks_tablet_based d); [|reflexivity].
+  apply not_true_is_false. intros Hex. apply existsb_exists in Hex as (k' & Hk' & E).
+  apply in_map_iff in Hk' as (t & <- & _). apply tkey_eqb_eq in E. subst k. cbn in H.
+  exact (H d (or_introl eq_refl) eq_refl).
+Qed.
+
+Lemma schema_tables_keep kss k :
+  NoDup (map ks_name kss) -> existsb (fun k' => tkey_eqb k' k) (schema_tables kss) = keep_table kss k.
+Proof.
+  induction kss as [|d kss IH]; intros Hnd; [reflexivity|].
+  cbn [map] in Hnd. inversion Hnd as [|? ? Hnotin Hnd']; subst.
+  rewrite schema_tables_cons, existsb_app.
+  unfold keep_table, ks_get. cbn [find]. destruct (N.eqb_spec (ks_name d) (fst k)) as [Heq|Hne].
+  - assert (Eabs : existsb (fun k' => tkey_eqb k' k) (schema_tables kss) = false).
+    { apply schema_tables_absent. intros d' Hd' E. apply Hnotin. rewrite Heq, <- E. now apply in_map. }
+    match goal with |- ?a || ?b = _ => replace b with false by (symmetry; exact Eabs) end.
+    rewrite orb_false_r. destruct (ks_tablet_based d); [|reflexivity].
+    unfold memN. rewrite <- existsb_app.
+    induction (ks_tables d ++ ks_views d) as [|t ts IHt]; [reflexivity|]. cbn [map existsb].
+    rewrite IHt. f_equal. unfold tkey_eqb. cbn [fst snd]. rewrite Heq, N.eqb_refl. cbn. apply N.eqb_sym.
+  - fold (ks_get kss (fst k)). fold (keep_table kss k).
+    etransitivity; [|apply IH; assumption].
+    match goal with |- ?a || ?b = _ => assert (a = false) as Ea end; [|now rewrite Ea].
+    destruct (ks_tablet_based d); [|reflexivity].
+    apply not_true_is_false. intros Hex. apply existsb_exists in Hex as (k' & Hk' & E).
+    apply in_map_iff in Hk' as (t & <- & _). apply tkey_eqb_eq in E. subst k. now cbn in Hne.
+Qed.
+
+Lemma step_present s o s' k :
+  state_inv s -> op_i64 o -> op_maps_ok o -> step s o = Some s' ->
+  is_some (find_table s' k) = spec_present_step k (is_some (find_table s k)) o.
+Proof.
+  intros Hinv Hok Hmaps Hstep.
+  destruct o as [k0 a b raw known|kss removed current recreated]; cbn [step spec_present_step] in *.
+  - destruct Hok as [Ha Hb]. pose proof (payload_check_spec a b raw) as Hps.
+    destruct (payload_check a b raw) as [[[f l] r]|e] eqn:E.
+    + destruct Hps as [Hps _]. rewrite Hps, andb_true_r.
+      destruct (learn_tablet a b raw known f l r Ha Hb E) as (Hwf & Hdc & _).
+      destruct (info_add_inv s k0 _ Hinv Hwf Hdc) as (s1 & E1 & _ & Hother & tt' & Ett' & _).
+      rewrite E1 in Hstep. injection Hstep as <-.
+      destruct (tkey_eqb k0 k) eqn:Ek.
+      * apply tkey_eqb_eq in Ek. subst. rewrite Ett'. cbn. now rewrite orb_true_r.
+      * rewrite orb_false_r, Hother; [reflexivity|]. intros ->. now rewrite tkey_eqb_refl in Ek.
+    + rewrite Hps, andb_false_r, orb_false_r. now injection Hstep as <-.
+  - injection Hstep as <-. rewrite <- keep_table_spec. unfold info_maintenance.
+    set (t1 := filter _ (i_tables s)). set (t2 := fold_left add_missing _ t1).
+    assert (Et2 : is_some (afind t2 k) = keep_table kss k).
+    { unfold t2. rewrite afind_add_missing. unfold t1. rewrite (afind_filter (keep_table kss)).
+      rewrite schema_tables_keep by exact Hmaps.
+      destruct (keep_table kss k); [|reflexivity]. now destruct (afind (i_tables s) k). }
+    destruct (negb (is_nil removed) || negb (is_nil recreated) || i_flag s).
+    + rewrite find_table_afind. cbn [i_tables]. rewrite (afind_map (table_maintenance removed current recreated)).
+      rewrite <- Et2. now destruct (afind t2 k).
+    + exact Et2.
+Qed.
+
+Lemma run_from_present h : forall s0 s k,
+  state_inv s0 -> Forall op_i64 h -> Forall op_maps_ok h -> run_from (Some s0) h = Some s ->
+  is_some (find_table s k) = fold_left (spec_present_step k) h (is_some (find_table s0 k)).
+Proof.
+  induction h as [|o h IH]; intros s0 s k Hinv Hok Hmaps Hrun.
+  - cbn in *. now injection Hrun as <-.
+  - inversion Hok as [|? ? Ho Hh]; inversion Hmaps as [|? ? Hm Hms]; subst.
+    destruct (step_inv s0 o Hinv Ho) as (s1 & E1 & Hinv1).
+    cbn [run_from fold_left] in *. rewrite E1 in Hrun.
+    rewrite (IH s1 s k Hinv1 Hh Hms Hrun). f_equal. now apply step_present.
+Qed.
+
+Lemma run_present h s k :
+  Forall op_i64 h -> Forall op_maps_ok h -> run h = Some s ->
+  is_some (find_table s k) = spec_present h k.
+Proof. intros Hok Hm Hrun. exact (run_from_present h info_empty s k state_inv_empty Hok Hm Hrun). Qed.
+
+(* ------------------------------------------------------------------------------------ *)
+(* J. the declarative reading of the specification                                       *)
+(* ------------------------------------------------------------------------------------ *)
+
+Lemma spec_entry_app h1 h2 k tok :
+  spec_entry (h1 ++ h2) k tok = fold_left (spec_step k tok) h2 (spec_entry h1 k tok).
+Proof. unfold spec_entry. apply fold_left_app. Qed.
+
+Lemma spec_maintain_range kss rm cu rc k e e' :
+  spec_maintain kss rm cu rc k e = Some e' -> e_first e' = e_first e /\ e_last e' = e_last e.
+Proof.
+  unfold spec_maintain. destruct (negb (spec_table_kept kss k)); [discriminate|].
+  destruct (e_pending e) as [raw|].
+  - destruct (spec_all_known cu raw); [|discriminate].
+    match goal with |- (if ?c then _ else _) = _ -> _ => destruct c end; [discriminate|].
+    intros [= <-]. split; reflexivity.
+  - match goal with |- (if ?c then _ else _) = _ -> _ => destruct c end; [discriminate|].
+    intros [= <-]. split; reflexivity.
+Qed.
+
+(* nothing was ever learnt that covers the token (or only before the point we look from):
+   the answer stays "nothing" *)
+Lemma spec_none_stays post k tok :
+  forallb (fun o => negb (covering_learn k tok o)) post = true ->
+  fold_left (spec_step k tok) post None = None.
+Proof.
+  induction post as [|o post IH]; intros H; [reflexivity|]. cbn [forallb] in H.
+  apply andb_true_iff in H as [Ho H]. cbn [fold_left].
+  assert (spec_step k tok None o = None) as ->; [|now apply IH].
+  destruct o as [k' a b raw known|]; cbn [spec_step covering_learn] in *; [|reflexivity].
+  destruct (tkey_eqb k' k && spec_payload_ok a b raw); [|reflexivity].
+  cbn in Ho. now destruct ((a <? tok) && (tok <=? b)).
+Qed.
+
+(* latest wins: the tablet learnt last for the token answers it (transformed by the maintenance
+   events that followed) as long as no later accepted payload for the table overlaps its range *)
+Lemma spec_latest_wins pre post k a b raw known tok :
+  spec_payload_ok a b raw = true -> a < tok <= b ->
+  forallb (fun o => negb (accepted_overlap k (a + 1) b o)) post = true ->
+  spec_entry (pre ++ Learn k a b raw known :: post) k tok =
+  spec_maintain_all k post (spec_entry_of a b raw known).
+Proof.
+  intros Hacc Htok Hpost. rewrite spec_entry_app. cbn [fold_left spec_step].
+  rewrite tkey_eqb_refl, Hacc. cbn [andb].
+  destruct (Z.ltb_spec a tok); [|lia]. destruct (Z.leb_spec tok b); [|lia]. cbn [andb].
+  unfold spec_maintain_all.
+  set (e0 := spec_entry_of a b raw known).
+  assert (Hr0 : forall e, Some e0 = Some e -> e_first e = a + 1 /\ e_last e = b).
+  { intros e [= <-]. split; reflexivity. }
+  revert Hr0. generalize (Some e0) as cur. clear e0.
+  induction post as [|o post IH]; intros cur Hcur; [reflexivity|]. cbn [forallb] in Hpost.
+  apply andb_true_iff in Hpost as [Ho Hpost]. cbn [fold_left].
+  assert (Hstep : spec_step k tok cur o =
+                  match o, cur with
+                  | Maintain kss rm cu rc, Some e => spec_maintain kss rm cu rc k e
+                  | _, _ => cur
+                  end /\
+                  forall e, spec_step k tok cur o = Some e -> e_first e = a + 1 /\ e_last e = b).
+  { destruct o as [k' a' b' raw' known'|kss rm cu rc]; cbn [spec_step accepted_overlap] in *.
+    - destruct (tkey_eqb k' k && spec_payload_ok a' b' raw') eqn:Eacc; [|split; [reflexivity|exact Hcur]].
+      cbn [andb negb] in Ho. apply negb_true_iff in Ho. unfold ranges_overlap in Ho.
+      assert (Hnc : (a' <? tok) && (tok <=? b') = false).
+      { destruct (Z.ltb_spec a' tok); destruct (Z.leb_spec tok b'); try reflexivity.
+        destruct (Z.leb_spec (a' + 1) b); destruct (Z.leb_spec (a + 1) b'); cbn in Ho; try discriminate; lia. }
+      rewrite Hnc. destruct cur as [e|]; [|split; [reflexivity|intros e' [=]]].
+      destruct (Hcur e eq_refl) as [-> ->]. unfold ranges_overlap. rewrite Ho.
+      split; [reflexivity|exact Hcur].
+    - destruct cur as [e|]; [|split; [reflexivity|intros e' [=]]]. split; [reflexivity|].
+      intros e' E'. destruct (spec_maintain_range _ _ _ _ _ _ _ E') as [-> ->]. now apply Hcur. }
+  destruct Hstep as [-> Hnext]. apply IH; assumption.
+Qed.
+
+(* stale data is forgotten: once a later accepted payload overlapped the answering tablet without
+   covering the token, the token is answered by nothing until a payload covering it arrives *)
+Lemma spec_stale_none pre post k a b raw known tok e :
+  spec_entry pre k tok = Some e -> spec_payload_ok a b raw = true -> ~ (a < tok <= b) ->
+  ranges_overlap (a + 1) b (e_first e) (e_last e) = true ->
+  forallb (fun o => negb (covering_learn k tok o)) post = true ->
+  spec_entry (pre ++ Learn k a b raw known :: post) k tok = None.
+Proof.
+  intros Epre Hacc Hnc Hov Hpost. rewrite spec_entry_app. cbn [fold_left spec_step].
+  rewrite tkey_eqb_refl, Hacc, Epre, Hov. cbn [andb].
+  assert ((a <? tok) && (tok <=? b) = false) as ->.
+  { destruct (Z.ltb_spec a tok); destruct (Z.leb_spec tok b); try reflexivity. lia. }
+  now apply spec_none_stays.
+Qed.
+
+Lemma spec_never_learnt hist k tok :
+  forallb (fun o => negb (covering_learn k tok o)) hist = true -> spec_lookup hist k tok = None.
+Proof. intros H. unfold spec_lookup, spec_entry. now rewrite spec_none_stays. Qed.
+
+(* ------------------------------------------------------------------------------------ *)
+(* K. the binary search of slice::partition_point                                        *)
+(* ------------------------------------------------------------------------------------ *)
+
+Lemma nth_error_firstn' {A} (l : list A) : forall n i, (i < n)%nat -> nth_error (firstn n l) i = nth_error l i.
+Proof.
+  induction l as [|a r IH]; intros n i Hlt.
+  - rewrite firstn_nil. reflexivity.
+  - destruct n as [|n]; [lia|]. destruct i as [|i]; [reflexivity|]. cbn. apply IH. lia.
+Qed.
+
+Lemma nth_error_skipn' {A} (l : list A) : forall n i, nth_error (skipn n l) i = nth_error l (n + i).
+Proof.
+  induction l as [|a r IH]; intros n i.
+  - rewrite skipn_nil. destruct i; destruct (n + _)%nat; reflexivity.
+  - destruct n as [|n]; [reflexivity|]. cbn. apply IH.
+Qed.
+
+Lemma split_at_lt {A} (p : A -> bool) l n i x :
+  split_at p l n -> nth_error l i = Some x -> (i < n)%nat -> p x = true.
+Proof.
+  intros (_ & Hf & _) Hi Hlt. rewrite forallb_forall in Hf. apply Hf.
+  apply nth_error_In with (n := i). rewrite nth_error_firstn' by assumption. exact Hi.
+Qed.
+
+Lemma split_at_ge {A} (p : A -> bool) l n i x :
+  split_at p l n -> nth_error l i = Some x -> (n <= i)%nat -> p x = false.
+Proof.
+  intros (_ & _ & Hs) Hi Hge. rewrite forallb_forall in Hs. apply negb_true_iff. apply Hs.
+  apply nth_error_In with (n := (i - n)%nat). rewrite nth_error_skipn'. now replace (n + (i - n))%nat with i by lia.
+Qed.
+
+Lemma bsearch_correct {A} (p : A -> bool) l n :
+  split_at p l n ->
+  forall fuel lo size, (lo <= n <= lo + size)%nat -> (lo + size <= List.length l)%nat -> (size <= fuel)%nat ->
+  bsearch fuel p l lo size = n.
+Proof.
+  intros Hsp. induction fuel as [|k IH]; intros lo size Hn Hlen Hfuel; cbn [bsearch]; [lia|].
+  destruct (Nat.leb_spec size 1) as [Hs|Hs].
+  - destruct size as [|[|?]]; [lia| |lia].
+    destruct (nth_error l lo) as [x|] eqn:Ex; [|apply nth_error_None in Ex; lia].
+    destruct (p x) eqn:Hp.
+    + destruct (Nat.eq_dec n lo) as [->|]; [|lia].
+      rewrite (split_at_ge p l lo lo x Hsp Ex (Nat.le_refl _)) in Hp. discriminate.
+    + destruct (Nat.eq_dec n lo) as [->|Hne]; [reflexivity|].
+      rewrite (split_at_lt p l n lo x Hsp Ex) in Hp by lia. discriminate.
+  - assert (Hhalf : (1 <= size / 2 /\ size / 2 <= size - size / 2 /\ size / 2 < size)%nat).
+    { pose proof (Nat.div_mod_eq size 2). pose proof (Nat.mod_upper_bound size 2). lia. }
+    destruct (nth_error l (lo + size / 2)) as [x|] eqn:Ex; [|apply nth_error_None in Ex; lia].
+    destruct (p x) eqn:Hp.
+    + assert (lo + size / 2 < n)%nat.
+      { destruct (Nat.lt_ge_cases (lo + size / 2) n) as [|Hge]; [assumption|].
+        rewrite (split_at_ge p l n _ x Hsp Ex Hge) in Hp. discriminate. }
+      apply IH; lia.
+    + assert (n <= lo + size / 2)%nat.
+      { destruct (Nat.lt_ge_cases (lo + size / 2) n) as [Hlt|]; [|assumption].
+        rewrite (split_at_lt p l n _ x Hsp Ex Hlt) in Hp. discriminate. }
+      apply IH; lia.
+Qed.
+
+(* on a partitioned slice the binary search returns the partition index *)
+Lemma partition_point_bs_correct {A} (p : A -> bool) l n :
+  split_at p l n -> partition_point_bs p l = n.
+Proof.
+  intros Hsp. unfold partition_point_bs. apply (bsearch_correct p l n Hsp); destruct Hsp as (Hn & _); lia.
+Qed.
+
+Lemma partition_point_bs_eq l x :
+  tablets_inv l ->
+  partition_point_bs (fun t => t_last t <? x) l = partition_point (fun t => t_last t <? x) l /\
+  partition_point_bs (fun t => t_first t <=? x) l = partition_point (fun t => t_first t <=? x) l.
+Proof.
+  intros Hinv. destruct (inv_partitioned l x Hinv) as [H1 H2].
+  split; now apply partition_point_bs_correct.
+Qed.
+
+(* ------------------------------------------------------------------------------------ *)
+(* L. the declarative reading, for the code                                              *)
+(* ------------------------------------------------------------------------------------ *)
+
+Lemma latest_wins pre post k a b raw known tok s :
+  Forall op_i64 (pre ++ Learn k a b raw known :: post) ->
+  run (pre ++ Learn k a b raw known :: post) = Some s ->
+  spec_payload_ok a b raw = true -> a < tok <= b ->
+  forallb (fun o => negb (accepted_overlap k (a + 1) b o)) post = true ->
+  lookup s k tok = option_map e_reps (spec_maintain_all k post (spec_entry_of a b raw known)).
+Proof.
+  intros Hok Hrun Hacc Htok Hpost. rewrite (lookup_refines _ s k tok Hok Hrun). unfold spec_lookup.
+  now rewrite spec_latest_wins.
+Qed.
+
+Lemma stale_none pre post k a b raw known tok s0 t s :
+  Forall op_i64 (pre ++ Learn k a b raw known :: post) ->
+  run pre = Some s0 -> lookup_tablet s0 k tok = Some t ->
+  spec_payload_ok a b raw = true -> ~ (a < tok <= b) ->
+  ranges_overlap (a + 1) b (t_first t) (t_last t) = true ->
+  forallb (fun o => negb (covering_learn k tok o)) post = true ->
+  run (pre ++ Learn k a b raw known :: post) = Some s ->
+  lookup s k tok = None.
+Proof.
+  intros Hok Hpre Ht Hacc Hnc Hov Hpost Hrun. rewrite (lookup_refines _ s k tok Hok Hrun). unfold spec_lookup.
+  assert (Hokpre : Forall op_i64 pre) by (apply Forall_app in Hok; tauto).
+  pose proof (run_refines pre s0 k tok Hokpre Hpre) as Epre. rewrite Ht in Epre. cbn in Epre.
+  now rewrite (spec_stale_none pre post k a b raw known tok (abs t)).
+Qed.
+
+Lemma never_learnt hist k tok s :
+  Forall op_i64 hist -> run hist = Some s ->
+  forallb (fun o => negb (covering_learn k tok o)) hist = true -> lookup s k tok = None.
+Proof. intros Hok Hrun H. rewrite (lookup_refines _ s k tok Hok Hrun). now apply spec_never_learnt. Qed.
